@@ -6,6 +6,7 @@
 
 use crate::cbor::{encode, Item};
 use crate::props::common::same;
+use crate::props::structs::{ref_enc_structure, ref_mac_structure, ref_sig_structure};
 use crate::props::segment;
 use crate::registry as reg;
 use crate::run::{catch, hash_str, CaseResult, Ctx, Property, Tier};
@@ -412,6 +413,25 @@ macro_rules! msg_spec {
     };
 }
 
+/// The creator closures echo what they were handed behind their own output, so that the built
+/// value shows *which* bytes each helper signed / MACed / authenticated at the time of its call.
+fn echo(mut out: Vec<u8>, handed: &[u8]) -> Vec<u8> {
+    out.extend_from_slice(handed);
+    out
+}
+
+/// Bytes a protected header contributes to a structure: retained bytes, h'' when empty, else its
+/// encoded map (Err when it has no encoding: the helper then refuses).
+fn pb(p: &ProtectedHeader) -> Result<Vec<u8>, ()> {
+    if let Some(w) = &p.original_data {
+        return Ok(w.clone());
+    }
+    if p.header.is_empty() {
+        return Ok(vec![]);
+    }
+    p.header.clone().to_vec().map_err(|_| ())
+}
+
 fn unsupported<T>() -> T {
     unreachable!("op not in this builder's alphabet")
 }
@@ -450,10 +470,10 @@ msg_spec!(Sign1Spec, "CoseSign1Builder", CoseSign1Builder, CoseSign1,
         MOp::Unprotected(h) => b.unprotected(h),
         MOp::Content(p) => b.payload(p),
         MOp::Auth(s) => b.signature(s),
-        MOp::Create { aad, out, fallible: false } => b.create_signature(&aad, |_| out),
-        MOp::Create { aad, out, fallible: true } => b.try_create_signature(&aad, |_| -> Result<Vec<u8>, ()> { Ok(out) }).unwrap(),
-        MOp::CreateDetached { payload, aad, out, fallible: false } => b.create_detached_signature(&payload, &aad, |_| out),
-        MOp::CreateDetached { payload, aad, out, fallible: true } => b.try_create_detached_signature(&payload, &aad, |_| -> Result<Vec<u8>, ()> { Ok(out) }).unwrap(),
+        MOp::Create { aad, out, fallible: false } => b.create_signature(&aad, |d| echo(out, d)),
+        MOp::Create { aad, out, fallible: true } => b.try_create_signature(&aad, |d| -> Result<Vec<u8>, ()> { Ok(echo(out, d)) }).unwrap(),
+        MOp::CreateDetached { payload, aad, out, fallible: false } => b.create_detached_signature(&payload, &aad, |d| echo(out, d)),
+        MOp::CreateDetached { payload, aad, out, fallible: true } => b.try_create_detached_signature(&payload, &aad, |d| -> Result<Vec<u8>, ()> { Ok(echo(out, d)) }).unwrap(),
         _ => unsupported(),
     },
     model: |m, op, _i| {
@@ -462,12 +482,13 @@ msg_spec!(Sign1Spec, "CoseSign1Builder", CoseSign1Builder, CoseSign1,
             MOp::Unprotected(h) => m.unprotected = h,
             MOp::Content(p) => m.payload = Some(p),
             MOp::Auth(s) => m.signature = s,
-            MOp::Create { out, .. } => m.signature = out,
-            MOp::CreateDetached { out, .. } => {
+            MOp::Create { aad, out, .. } => m.signature = echo(out, &ref_sig_structure("Signature1", &(match pb(&m.protected) { Ok(x) => x, Err(()) => return Err(_i) }), None, &aad, m.payload.as_deref().unwrap_or(&[]))),
+            MOp::CreateDetached { payload, aad, out, .. } => {
                 // documented: panics if a payload is embedded
                 if m.payload.is_some() {
                     return Err(_i);
                 }
+                let out = echo(out, &ref_sig_structure("Signature1", &(match pb(&m.protected) { Ok(x) => x, Err(()) => return Err(_i) }), None, &aad, &payload));
                 m.signature = out;
             }
             _ => unsupported(),
@@ -491,10 +512,10 @@ msg_spec!(SignSpec, "CoseSignBuilder", CoseSignBuilder, CoseSign,
         MOp::Unprotected(h) => b.unprotected(h),
         MOp::Content(p) => b.payload(p),
         MOp::AddSignature(s) => b.add_signature(s),
-        MOp::AddCreated { sig, aad, out, fallible: false } => b.add_created_signature(sig, &aad, |_| out),
-        MOp::AddCreated { sig, aad, out, fallible: true } => b.try_add_created_signature(sig, &aad, |_| -> Result<Vec<u8>, ()> { Ok(out) }).unwrap(),
-        MOp::AddDetached { sig, payload, aad, out, fallible: false } => b.add_detached_signature(sig, &payload, &aad, |_| out),
-        MOp::AddDetached { sig, payload, aad, out, fallible: true } => b.try_add_detached_signature(sig, &payload, &aad, |_| -> Result<Vec<u8>, ()> { Ok(out) }).unwrap(),
+        MOp::AddCreated { sig, aad, out, fallible: false } => b.add_created_signature(sig, &aad, |d| echo(out, d)),
+        MOp::AddCreated { sig, aad, out, fallible: true } => b.try_add_created_signature(sig, &aad, |d| -> Result<Vec<u8>, ()> { Ok(echo(out, d)) }).unwrap(),
+        MOp::AddDetached { sig, payload, aad, out, fallible: false } => b.add_detached_signature(sig, &payload, &aad, |d| echo(out, d)),
+        MOp::AddDetached { sig, payload, aad, out, fallible: true } => b.try_add_detached_signature(sig, &payload, &aad, |d| -> Result<Vec<u8>, ()> { Ok(echo(out, d)) }).unwrap(),
         _ => unsupported(),
     },
     model: |m, op, _i| {
@@ -503,15 +524,16 @@ msg_spec!(SignSpec, "CoseSignBuilder", CoseSignBuilder, CoseSign,
             MOp::Unprotected(h) => m.unprotected = h,
             MOp::Content(p) => m.payload = Some(p),
             MOp::AddSignature(s) => m.signatures.push(s),
-            MOp::AddCreated { mut sig, out, .. } => {
-                sig.signature = out;
+            MOp::AddCreated { mut sig, aad, out, .. } => {
+                // signs the body header, signer header and payload in force at the time of the call
+                sig.signature = echo(out, &ref_sig_structure("Signature", &(match pb(&m.protected) { Ok(x) => x, Err(()) => return Err(_i) }), Some(&(match pb(&sig.protected) { Ok(x) => x, Err(()) => return Err(_i) })), &aad, m.payload.as_deref().unwrap_or(&[])));
                 m.signatures.push(sig);
             }
-            MOp::AddDetached { mut sig, out, .. } => {
+            MOp::AddDetached { mut sig, payload, aad, out, .. } => {
                 if m.payload.is_some() {
                     return Err(_i);
                 }
-                sig.signature = out;
+                sig.signature = echo(out, &ref_sig_structure("Signature", &(match pb(&m.protected) { Ok(x) => x, Err(()) => return Err(_i) }), Some(&(match pb(&sig.protected) { Ok(x) => x, Err(()) => return Err(_i) })), &aad, &payload));
                 m.signatures.push(sig);
             }
             _ => unsupported(),
@@ -539,12 +561,12 @@ macro_rules! mac_like {
                     MOp::Unprotected(h) => m.unprotected = h,
                     MOp::Content(p) => m.payload = Some(p),
                     MOp::Auth(s) => m.tag = s,
-                    MOp::Create { out, .. } => {
+                    MOp::Create { aad, out, .. } => {
                         // documented: panics if the payload has not been set
                         if m.payload.is_none() {
                             return Err(_i);
                         }
-                        m.tag = out;
+                        m.tag = echo(out, &ref_mac_structure(if $has_rcp { "MAC" } else { "MAC0" }, &(match pb(&m.protected) { Ok(x) => x, Err(()) => return Err(_i) }), &aad, m.payload.as_deref().unwrap_or(&[])));
                     }
                     MOp::AddRecipient(r) => mac_add_rcp!(m, r, $has_rcp),
                     _ => unsupported(),
@@ -560,8 +582,8 @@ macro_rules! mac_real {
             MOp::Unprotected(h) => $b.unprotected(h),
             MOp::Content(p) => $b.payload(p),
             MOp::Auth(s) => $b.tag(s),
-            MOp::Create { aad, out, fallible: false } => $b.create_tag(&aad, |_| out),
-            MOp::Create { aad, out, fallible: true } => $b.try_create_tag(&aad, |_| -> Result<Vec<u8>, ()> { Ok(out) }).unwrap(),
+            MOp::Create { aad, out, fallible: false } => $b.create_tag(&aad, |d| echo(out, d)),
+            MOp::Create { aad, out, fallible: true } => $b.try_create_tag(&aad, |d| -> Result<Vec<u8>, ()> { Ok(echo(out, d)) }).unwrap(),
             MOp::AddRecipient(r) => $b.add_recipient(r),
             _ => unsupported(),
         }
@@ -572,8 +594,8 @@ macro_rules! mac_real {
             MOp::Unprotected(h) => $b.unprotected(h),
             MOp::Content(p) => $b.payload(p),
             MOp::Auth(s) => $b.tag(s),
-            MOp::Create { aad, out, fallible: false } => $b.create_tag(&aad, |_| out),
-            MOp::Create { aad, out, fallible: true } => $b.try_create_tag(&aad, |_| -> Result<Vec<u8>, ()> { Ok(out) }).unwrap(),
+            MOp::Create { aad, out, fallible: false } => $b.create_tag(&aad, |d| echo(out, d)),
+            MOp::Create { aad, out, fallible: true } => $b.try_create_tag(&aad, |d| -> Result<Vec<u8>, ()> { Ok(echo(out, d)) }).unwrap(),
             _ => unsupported(),
         }
     };
@@ -597,8 +619,8 @@ msg_spec!(EncryptSpec, "CoseEncryptBuilder", CoseEncryptBuilder, CoseEncrypt,
         MOp::Protected(h) => b.protected(h),
         MOp::Unprotected(h) => b.unprotected(h),
         MOp::Content(p) => b.ciphertext(p),
-        MOp::Create { aad, out, fallible: false } => b.create_ciphertext(b"pt", &aad, |_, _| out),
-        MOp::Create { aad, out, fallible: true } => b.try_create_ciphertext(b"pt", &aad, |_, _| -> Result<Vec<u8>, ()> { Ok(out) }).unwrap(),
+        MOp::Create { aad, out, fallible: false } => b.create_ciphertext(b"pt", &aad, |_, a| echo(out, a)),
+        MOp::Create { aad, out, fallible: true } => b.try_create_ciphertext(b"pt", &aad, |_, a| -> Result<Vec<u8>, ()> { Ok(echo(out, a)) }).unwrap(),
         MOp::AddRecipient(r) => b.add_recipient(r),
         _ => unsupported(),
     },
@@ -607,7 +629,7 @@ msg_spec!(EncryptSpec, "CoseEncryptBuilder", CoseEncryptBuilder, CoseEncrypt,
             MOp::Protected(h) => m.protected = built_protected(&h),
             MOp::Unprotected(h) => m.unprotected = h,
             MOp::Content(p) => m.ciphertext = Some(p),
-            MOp::Create { out, .. } => m.ciphertext = Some(out),
+            MOp::Create { aad, out, .. } => m.ciphertext = Some(echo(out, &ref_enc_structure("Encrypt", &(match pb(&m.protected) { Ok(x) => x, Err(()) => return Err(_i) }), &aad))),
             MOp::AddRecipient(r) => m.recipients.push(r),
             _ => unsupported(),
         }
@@ -621,8 +643,8 @@ msg_spec!(Encrypt0Spec, "CoseEncrypt0Builder", CoseEncrypt0Builder, CoseEncrypt0
         MOp::Protected(h) => b.protected(h),
         MOp::Unprotected(h) => b.unprotected(h),
         MOp::Content(p) => b.ciphertext(p),
-        MOp::Create { aad, out, fallible: false } => b.create_ciphertext(b"pt", &aad, |_, _| out),
-        MOp::Create { aad, out, fallible: true } => b.try_create_ciphertext(b"pt", &aad, |_, _| -> Result<Vec<u8>, ()> { Ok(out) }).unwrap(),
+        MOp::Create { aad, out, fallible: false } => b.create_ciphertext(b"pt", &aad, |_, a| echo(out, a)),
+        MOp::Create { aad, out, fallible: true } => b.try_create_ciphertext(b"pt", &aad, |_, a| -> Result<Vec<u8>, ()> { Ok(echo(out, a)) }).unwrap(),
         _ => unsupported(),
     },
     model: |m, op, _i| {
@@ -630,7 +652,7 @@ msg_spec!(Encrypt0Spec, "CoseEncrypt0Builder", CoseEncrypt0Builder, CoseEncrypt0
             MOp::Protected(h) => m.protected = built_protected(&h),
             MOp::Unprotected(h) => m.unprotected = h,
             MOp::Content(p) => m.ciphertext = Some(p),
-            MOp::Create { out, .. } => m.ciphertext = Some(out),
+            MOp::Create { aad, out, .. } => m.ciphertext = Some(echo(out, &ref_enc_structure("Encrypt0", &(match pb(&m.protected) { Ok(x) => x, Err(()) => return Err(_i) }), &aad))),
             _ => unsupported(),
         }
         Ok(())
@@ -648,8 +670,8 @@ msg_spec!(RecipientSpec, "CoseRecipientBuilder", CoseRecipientBuilder, CoseRecip
         MOp::Unprotected(h) => b.unprotected(h),
         MOp::Content(p) => b.ciphertext(p),
         MOp::AddRecipient(r) => b.add_recipient(r),
-        MOp::CreateCtx { ctx, plaintext, aad, out, fallible: false } => b.create_ciphertext(ENC_CTXS[ctx], &plaintext, &aad, |_, _| out),
-        MOp::CreateCtx { ctx, plaintext, aad, out, fallible: true } => b.try_create_ciphertext(ENC_CTXS[ctx], &plaintext, &aad, |_, _| -> Result<Vec<u8>, ()> { Ok(out) }).unwrap(),
+        MOp::CreateCtx { ctx, plaintext, aad, out, fallible: false } => b.create_ciphertext(ENC_CTXS[ctx], &plaintext, &aad, |_, a| echo(out, a)),
+        MOp::CreateCtx { ctx, plaintext, aad, out, fallible: true } => b.try_create_ciphertext(ENC_CTXS[ctx], &plaintext, &aad, |_, a| -> Result<Vec<u8>, ()> { Ok(echo(out, a)) }).unwrap(),
         _ => unsupported(),
     },
     model: |m, op, _i| {
@@ -658,12 +680,12 @@ msg_spec!(RecipientSpec, "CoseRecipientBuilder", CoseRecipientBuilder, CoseRecip
             MOp::Unprotected(h) => m.unprotected = h,
             MOp::Content(p) => m.ciphertext = Some(p),
             MOp::AddRecipient(r) => m.recipients.push(r),
-            MOp::CreateCtx { ctx, out, .. } => {
+            MOp::CreateCtx { ctx, aad, out, .. } => {
                 // documented: panics unless the context is one of the three recipient contexts
                 if ctx < 2 {
                     return Err(_i);
                 }
-                m.ciphertext = Some(out);
+                m.ciphertext = Some(echo(out, &ref_enc_structure(crate::props::structs::ENC_CONTEXTS[ctx], &(match pb(&m.protected) { Ok(x) => x, Err(()) => return Err(_i) }), &aad)));
             }
             _ => unsupported(),
         }
@@ -1259,7 +1281,7 @@ pub fn property() -> Property {
                exhaustively all sequences of length <= 3 over a per-builder palette (length <= 2 for the claims builder, whose palette lists every registered claim name) including empty, boundary and reserved arguments, and generated sequences of length <= 16 (key constructor arguments also shaped like key material: lengths at and next to the curve field sizes, leading 00 / ff / SEC1 prefix octets); \
                oracle: a field-map model applying each call's documented effect to a struct literal, compared with build(); documented refusals (panics) predicted per call; invariant: never both IV and Partial IV; \
                non-trivial = >= 2 calls, or a refused call; distinct by call list",
-        assumptions: &["CoseKdfContext has private fields: compared through to_vec against the reference encoding of the modelled fields", "create helpers appear with constant closures (their byte-level behaviour is C03-C06's)"],
+        assumptions: &["CoseKdfContext has private fields: compared through to_vec against the reference encoding of the modelled fields", "the creator closures of the create helpers return a constant followed by the bytes they were handed; the model appends the reference structure of the modelled state at the time of the call"],
         exhaustive_domains: &["all call sequences of length 0..3 over each builder's palette (0..2 for ClaimsSetBuilder)"],
         case,
         exh_count,
